@@ -43,6 +43,8 @@ class SymQueue:
         else:
             ex.assume(st, self.bitmap != ones)
         ex.assume(st, (self.bitmap & lowmask) != BV(0, 128))   # an entry exists only after its first fragment
+        # every fragment came out of one datagram: at most 65535 bytes (the first one's length sizes the assembly buffer)
+        ex.assume(st, z3.ULE(self.L(BV(0, 64)), BV(65535, 64)))
         self.lowmask = lowmask
 
     def frag(self, i):
